@@ -34,6 +34,8 @@ def m_append_multiple(L, items, drop_at):
 
 
 def m_delete(L, i):
+    if i < 0:
+        i = len(L) + i
     return L[:i] + L[i + 1:]
 
 
